@@ -66,8 +66,10 @@ func Seed() int64 {
 // index.  It is never 0 (rapid treats 0 as "random").
 func RapidSeed(part int) uint64 {
 	i, _ := Shard()
-	s := uint64(Seed()) % (1 << 31)
-	return s*4096 + uint64(part)*64 + uint64(i) + 1
+	// rapid uses seed+k for its k-th check, so shards and parts are spaced
+	// 2^24 apart.
+	s := uint64(Seed()) % (1 << 20)
+	return s<<40 | uint64(part&0xff)<<32 | uint64(i&0xff)<<24 | 1
 }
 
 // Total picks the case count for the running tier.
